@@ -1,9 +1,11 @@
 """C06 — BVH + narrow phase = brute force (structural, thin)."""
+from . import scopes
 from ..core.report import DOMAIN_D
 from ..rules import bvh, aabbtree, colliders
 
 
 def run(idx, rep, tier):
+    rep.set_scope(scopes.scope(idx, "C06"))
     rep.explanation = (
         "R-UPDATEORDER: update_collider_poses rebuilds a fresh tree, visits all colliders, looks the pose up to 'origin' (as "
         "_make_collider does), calls update_pose BEFORE aabb() and inserts with payload (frame, collider). R-PAYLOAD: the "
@@ -22,4 +24,4 @@ def run(idx, rep, tier):
     aabbtree.r_sentinel(idx, rep)
     aabbtree.r_bookkeep(idx, rep)
     aabbtree.r_unique(idx, rep)
-    colliders.r_coherence(idx, rep)
+    colliders.r_coherence(idx, rep, relevant_to="aabb")      # only what the broad phase reads: the pose and the attributes aabb() uses
